@@ -461,7 +461,7 @@ def prop_C20(tier, seed, rng):
 
 def alg_refinement(limit):
     """Post-pass for the rec families: are the logs behaviours of the ALGORITHM model Reconciler.tla
-    (trace/RecAlgTrace.tla)?  Scope: single (non-batch) operations.  A log that is not
+    (trace/RecAlgTrace.tla)?  A log that is not
     accepted means the model no longer describes the code (the design-level results obtained on it lose their
     meaning): reported as a note, never as a violation -- the properties are judged by RecTrace.tla."""
     def post(fam, sub):
@@ -472,7 +472,7 @@ def alg_refinement(limit):
         for trace in sorted(glob.glob(os.path.join(sub, "rec*.trace.ndjson"))):
             bounds = trace.replace(".trace.", ".bounds.")
             bl = [json.loads(x) for x in core.read_lines(bounds)]
-            ok = [b for b in bl if not fam.scripts[b["id"] - 1][0]["batch"]]
+            ok = bl
             ok = ok[:max(0, limit - applicable)]
             if not ok:
                 continue
@@ -509,8 +509,12 @@ def _rec_prop(prop, rule):
     def fn(tier, seed, rng):
         import rec_gen
         quick = tier == "quick"
-        design = [design_check("Reconciler", "MCReconcilerQuick.cfg" if quick else "MCReconciler_fixed.cfg")]
+        design = [design_check("Reconciler", "MCReconcilerQuick.cfg" if quick else "MCReconciler_fixed.cfg"),
+                  # batch mode (round of 2 collected, DeleteBatch before UpdateBatch)
+                  design_check("Reconciler", "MCReconcilerBatch.cfg" if quick else "MCReconcilerBatch3.cfg")]
         if not quick:
+            # single operations with a round of 2 (two results per status commit, written in either order)
+            design.append(design_check("Reconciler", "MCReconcilerRound2.cfg"))
             design += [dict(mutant_check("Reconciler", "MCReconciler_dropRetry.cfg", "Live_C14"), states=0, transitions=0),
                        dict(mutant_check("Reconciler", "MCReconciler_staleRetry.cfg", "Prop_C15_StatusOnly"), states=0, transitions=0),
                        dict(mutant_check("Reconciler", "MCReconciler_driftOrig.cfg", "Inv_C16_LowWatermark"), states=0, transitions=0)]
